@@ -10,6 +10,12 @@ Python objects (`Py`):
   (any object that is none of the above and implements none of `__index__`, `__float__`: `dict`,
   `tuple`, `bytes`, `object()` …).
 
+Objects are classified by KIND the way the extractors do, not by exact type: an instance of a
+subclass of `int` / `float` / `str` / `list` (`class Tag(str)`, `enum.IntEnum`, `enum.StrEnum`,
+`(str, Enum)` members, …) is the `int` / `float` / `str` / `list` with the same value (all the
+checks below are `Py*_Check` subclass checks, `is_instance_of::<PyInt>` included); it comes back
+from Rust as a plain instance of the base type.  `bool` cannot be subclassed.  A tuple is `other`.
+
 pyo3 0.29 `extract` semantics transcribed (pyo3 `conversions/std/num.rs`, `types/boolobject.rs`,
 `types/float.rs`, `conversions/std/string.rs`):
 * `extract::<bool>`  succeeds only on a Python `bool` (`cast::<PyBool>`; numpy bools are outside the
